@@ -138,6 +138,25 @@ class C05Stop(Monitor):
                         generations_after=self.consults_after[deme.id],
                     )
 
+    def on_runloop_begin(self, tree):
+        # one segment per call of run(): a second call on a finished tree must consult once and do nothing
+        self.run_consults = []
+        self.steps_at_run_begin = self.ctx.step
+        self.cov("run_calls")
+
+    def on_runloop_end(self, tree):
+        rc = self.run_consults
+        steps = self.ctx.step - getattr(self, "steps_at_run_begin", 0)
+        if rc:
+            if not rc[-1]:
+                self.v("run() returned although the global stop condition was false at the boundary")
+            if any(rc[:-1]) and not self.nonmonotone:
+                self.v("run() continued past a boundary at which the global stop condition held", verdicts=rc[-6:])
+            if len(rc) != steps + 1:
+                self.v("run loop consultations != metaepochs + 1", consults=len(rc), steps=steps)
+        else:
+            self.v("run() returned without consulting the global stop condition")
+
     def on_init(self, deme, start, end):
         if self.T is not None and deme.level > 0:
             self._bad("a deme was sprouted after the global stop condition had been observed true", deme=deme.id, T=self.T)
@@ -162,14 +181,6 @@ class C05Stop(Monitor):
                 self.v("minimize(): nit != metaepochs performed", nit=int(ctx.result.nit), performed=ctx.step)
             if desc.get("maxiter") is not None and desc.get("maxfun") is None and ctx.result.nit != desc["maxiter"]:
                 self.v("minimize(maxiter=n): nit != n", nit=int(ctx.result.nit), maxiter=desc["maxiter"])
-        rc = self.run_consults
-        if rc:
-            if not rc[-1]:
-                self.v("run() returned although the global stop condition was false at the boundary")
-            if any(rc[:-1]) and not self.nonmonotone:
-                self.v("run() continued past a boundary at which the global stop condition held", verdicts=rc[-6:])
-            if len(rc) != ctx.step + 1:
-                self.v("run loop consultations != metaepochs + 1", consults=len(rc), steps=ctx.step)
         # evaluations after T bounded by one generation
         if self.T is not None and not self.nonmonotone:
             for d in self.all_demes(tree):
